@@ -292,26 +292,56 @@ func runC14(c *Ctx) {
 	if frl := c.P.Method("filterlist", "FileRuleList", "RetrieveRule"); frl != nil {
 		fc := ctxOf(frl)
 		c.Fn(FuncName(frl))
-		var ops []ssa.Instruction
-		eachInstr(frl, func(_ *ssa.BasicBlock, in ssa.Instruction) {
+		usesShared := func(in ssa.Instruction) bool {
 			cl, ok := in.(*ssa.Call)
 			if !ok {
-				return
+				return false
 			}
 			// any call that receives the file or the shared buffer
 			for _, a := range cl.Call.Args {
 				if ld, ok := a.(*ssa.UnOp); ok && ld.Op == token.MUL {
 					if n, f, ok := fieldOf(ld.X); ok && (f == "File" || f == "buffer") && namedIs(n, "filterlist", "FileRuleList") {
-						ops = append(ops, in)
-						return
+						return true
 					}
 				}
 				if mi, ok := a.(*ssa.MakeInterface); ok {
 					if ld, ok := mi.X.(*ssa.UnOp); ok && ld.Op == token.MUL {
 						if n, f, ok := fieldOf(ld.X); ok && f == "File" && namedIs(n, "filterlist", "FileRuleList") {
-							ops = append(ops, in)
-							return
+							return true
 						}
+					}
+				}
+			}
+			return false
+		}
+		// uses made by helpers outside the vocabulary count at the call site in the retriever
+		var nestedUses func(fn *ssa.Function, depth int) int
+		nestedUses = func(fn *ssa.Function, depth int) int {
+			n := 0
+			if depth > 4 {
+				return 0
+			}
+			eachInstr(fn, func(_ *ssa.BasicBlock, in ssa.Instruction) {
+				if usesShared(in) {
+					n++
+				} else if cl, ok := in.(*ssa.Call); ok {
+					if cal := cl.Call.StaticCallee(); cal != nil && c.P.IsNewHelper(cal) && cal != fn {
+						n += nestedUses(cal, depth+1)
+					}
+				}
+			})
+			return n
+		}
+		var ops []ssa.Instruction
+		eachInstr(frl, func(_ *ssa.BasicBlock, in ssa.Instruction) {
+			if usesShared(in) {
+				ops = append(ops, in)
+				return
+			}
+			if cl, ok := in.(*ssa.Call); ok {
+				if cal := cl.Call.StaticCallee(); cal != nil && c.P.IsNewHelper(cal) {
+					for k := nestedUses(cal, 0); k > 0; k-- {
+						ops = append(ops, in)
 					}
 				}
 			}
